@@ -581,6 +581,33 @@ def execute(scn, hooks=()):
             _finish(res, scn)
             return res
         client = res.client
+
+        def _second_caller(f):
+            # a second thread of the application: real thread (locks behave as between threads), run to completion
+            # while the first caller stays parked - the simulator, not the OS, decides who runs
+            import threading
+            err = []
+
+            def body():
+                try:
+                    for spec in f.get("calls", ()):
+                        tg = resolve_target(client, spec.get("on"))
+                        a_ = [codec.dec(resolve_refs(x, res)) for x in spec.get("a", ())]
+                        k_ = {k: codec.dec(resolve_refs(v, res)) for k, v in (spec.get("k") or {}).items()}
+                        r_ = run_call(world, res, -2, (lambda tg=tg, m=spec["m"], a_=a_, k_=k_: getattr(tg, m)(*a_, **k_)),
+                                      spec["m"], spec.get("faults"), spec.get("net"), hooks)
+                        r_.extra["nested"] = spec
+                        r_.extra["nested_args"] = (a_, k_)
+                except BaseException as e:      # noqa: B902 - handed to the parked caller's thread below
+                    err.append(e)
+            t = threading.Thread(target=body, daemon=True)
+            t.start()
+            t.join(20)
+            if t.is_alive():
+                raise HarnessError("second caller did not finish: blocked on something the parked caller holds")
+            if err:
+                raise err[0]
+        world.second_caller = _second_caller
         for i, st in enumerate(scn["steps"]):
             t = st["t"]
             if t == "call":
